@@ -10,9 +10,10 @@ correspond : whole programs with a side-effect trace from gen/cont08.py (+ corpu
              algorithm comparing extents by identity): values of the top-level forms, the trace, stdout, outcome.
 oracle     : S.  A real ≠ S difference is a VIOLATION unless it is attributed to an open finding:
              class predicate (computed by S's run: the negation of the guard of the `_partial` theorem) AND the
-             real engine behaves like the faithful variant (`c08driver impl`: winders compared with equal?,
-             reset/shift/with-handler as stdlib.scm encodes them), or — for K08c, whose mechanism (reference
-             counts of continuation marks) is below the CEK level — shows the specific panic.
+             real engine behaves exactly like the faithful variant (`c08driver impl`: dynamic-wind / do-wind /
+             the call/cc wrapper of parameters.scm and reset / shift / with-handler of stdlib.scm transcribed into
+             the object language and run on primitive continuations), or — for findings whose mechanism is below
+             the source level (nested interpreter instances of native built-ins) — a syntactic class predicate.
 """
 import glob
 import os
@@ -198,7 +199,8 @@ def error_in_native_callback(forms):
 
 def classify(real, spec, impls, known, text=None):
     """Attribute a disagreement real ≠ S to an open finding, or return None (⇒ VIOLATION).
-    impls = [faithful variant with equal? winders + stdlib encoding, variant with the stdlib encoding only]."""
+    impls = [result of the faithful variant (`c08driver impl` / `impl-guarded`: parameters.scm + stdlib.scm
+    transcribed into the object language, run on primitive continuations)]."""
     ev, iev = spec["ev"], impls[0]["ev"]
     # K08c: mechanism below the CEK level (reference counts of marks): class predicate + the specific panic
     if "K08c" in known and real["res"][0] == "panic" and PANIC_OPEN in real["res"][1] and (
@@ -219,14 +221,14 @@ def classify(real, spec, impls, known, text=None):
         return "K08e"
     if forms is not None and "K08d" in known and ev.get("handled", 0) > 0 and uses_cweh(forms):
         return "K08d"
+    # K08b / K08g: Scheme-level mechanisms (stdlib.scm reset/shift/with-handler, parameters.scm dynamic-wind):
+    # class predicate from S's run AND the real engine behaves exactly like the faithful variant
     for im in impls:
         if same(real, im):
-            d12 = ev.get("d12", 0) > 0 or im["ev"].get("d12", 0) > 0
-            mc = ev.get("mc-cross", 0) > 0
-            if mc and "K08b" in known:
+            if ev.get("mc-cross", 0) > 0 and "K08b" in known:
                 return "K08b"
-            if d12 and im is impls[0] and "K08a" in known:
-                return "K08a"
+            if ev.get("raise-through-left-extent", 0) > 0 and "K08g" in known:
+                return "K08g"
     return None
 
 
@@ -272,9 +274,9 @@ def run(ctx):
     names = [fn for fn, _ in corpus] + ["gen-%d" % i for i in range(n)]
     feats = [{"corpus"}] * len(corpus) + [g[1] for g in gen]
 
+    impl_mode = "impl-guarded" if code.get("scheme", {}).get("wind_handler_guarded") else "impl"
     spec = run_spec(progs)
-    impl = run_spec(progs, "impl")
-    impl2 = run_spec(progs, "mc")
+    impl = run_spec(progs, impl_mode)
     ctx.log("S done: %d programs" % len(progs))
     stats = {"programs": len(progs), "configs": {}, "features": {}, "events": {}, "outcomes": {"ok": 0, "err": 0, "timeout": 0},
              "known_hits": {}, "disagreements_checked": 0, "samples": [], "agree": 0}
@@ -314,7 +316,7 @@ def run(ctx):
                     stats["samples"].append({"program": progs[i], "real": r["res"], "spec": m["res"], "events": m["ev"]})
                 continue
             stats["disagreements_checked"] += 1
-            kid = classify(r, m, [impl[i], impl2[i]], known, progs[i])
+            kid = classify(r, m, [impl[i]], known, progs[i])
             if kid:
                 cs["known"] += 1
                 stats["known_hits"][kid] = stats["known_hits"].get(kid, 0) + 1
@@ -353,16 +355,16 @@ def replay(ctx, path):
     progs = [p for p in text.split(SEP) if p.strip()]
     C.build_harness(ctx, ["c08"])
     spec = run_spec(progs)
-    impl = run_spec(progs, "impl")
-    impl2 = run_spec(progs, "mc")
+    guarded = "(eq? (car (get-tls winders)) entry)" in open("/repo/crates/steel-core/src/scheme/modules/parameters.scm").read()
+    impl = run_spec(progs, "impl-guarded" if guarded else "impl")
     known = load_known(ctx)
     for cname, env in CONFIGS:
         real = run_real(progs, env=env)
-        for p, r, m, im, im2 in zip(progs, real, spec, impl, impl2):
+        for p, r, m, im in zip(progs, real, spec, impl):
             print("--- [%s]" % cname)
             print(p)
             print("  real:", r["res"], repr(r["out"][:200]))
             print("  spec:", m["res"], repr(m["out"][:200]), m["ev"])
             print("  impl:", im["res"])
-            print("  verdict:", "agree" if same(r, m) else (classify(r, m, [im, im2], known, p) or "VIOLATION"))
+            print("  verdict:", "agree" if same(r, m) else (classify(r, m, [im], known, p) or "VIOLATION"))
     return 0
